@@ -213,10 +213,10 @@ Record handle := mkHandle { hd : header; inited : bool }.
 Record state := mkState { file : option bytes; handles : list handle }.
 
 Inductive res :=
-| ROk | RErr (e : err) | RNum (n : Z) | RRec (t p : Z * list int) | RTimes (ts : Z * list int)
-| RHdr (k : skind) (dt nVar : Z) (coords : list (Z * list int)).
+| ROk | RErr (e : err) | RNum (n : Z) | RRec (t p : bytes) | RTimes (ts : bytes)
+| RHdr (k : skind) (dt nVar : Z) (coords : list bytes).
 
-Inductive snap := SKeep | SAbsent | SFile (b : Z * list int).
+Inductive snap := SKeep | SAbsent | SFile (b : bytes).
 
 Inductive op :=
 | ONew (h : header)                               (* cls(dtype, fileName); setHeader(...) *)
@@ -234,7 +234,7 @@ Definition set_handle (l : list handle) (k : nat) (h : handle) : list handle :=
   firstn k l ++ h :: skipn (S k) l.
 
 Definition snap_of (f : option bytes) : snap :=
-  match f with None => SAbsent | Some b => SFile (unB b) end.
+  match f with None => SAbsent | Some b => SFile b end.
 
 Definition dummy_handle := mkHandle (mkHeader SScalar 0 0 []) false.
 
@@ -256,7 +256,7 @@ Definition step (m : add_mode) (s : state) (o : op) : state * res * snap :=
       | Some f => match decode_header f with
                   | Err e => (s, RErr e, SKeep)
                   | Ok h => (mkState (file s) (handles s ++ [mkHandle h true]),
-                             RHdr (h_kind h) (h_dtype h) (h_nVar h) (map unB (h_coords h)), SKeep)
+                             RHdr (h_kind h) (h_dtype h) (h_nVar h) (h_coords h), SKeep)
                   end
       end
   | OAdd k dt nitems t p =>
@@ -277,7 +277,7 @@ Definition step (m : add_mode) (s : state) (o : op) : state * res * snap :=
       match file s with
       | None => (s, RErr ENotFound, SKeep)
       | Some f => match readField (hd (hk k)) f idx with
-                  | Ok (t, p) => (s, RRec (unB t) (unB p), SKeep)
+                  | Ok (t, p) => (s, RRec t p, SKeep)
                   | Err e => (s, RErr e, SKeep)
                   end
       end
@@ -285,7 +285,7 @@ Definition step (m : add_mode) (s : state) (o : op) : state * res * snap :=
       match file s with
       | None => (s, RErr ENotFound, SKeep)
       | Some f => match time (hd (hk k)) f idx with
-                  | Ok t => (s, RTimes (unB t), SKeep)
+                  | Ok t => (s, RTimes t, SKeep)
                   | Err e => (s, RErr e, SKeep)
                   end
       end
@@ -293,7 +293,7 @@ Definition step (m : add_mode) (s : state) (o : op) : state * res * snap :=
       match file s with
       | None => (s, RErr ENotFound, SKeep)
       | Some f => match times (hd (hk k)) f with
-                  | Ok ts => (s, RTimes (unB (concat ts)), SKeep)
+                  | Ok ts => (s, RTimes (concat ts), SKeep)
                   | Err e => (s, RErr e, SKeep)
                   end
       end
@@ -310,6 +310,28 @@ Definition step (m : add_mode) (s : state) (o : op) : state * res * snap :=
   | ORemove => (mkState None (handles s), ROk, SAbsent)
   end.
 
+(* printable forms: uniform tuples (tag, a, b, block lengths, blocks as 7-byte words, see [unB]) that
+   the harness reads back with Python's literal parser *)
+Definition ptuple : Type := Z * Z * Z * list Z * list (list int).
+Definition err_code (e : err) : Z :=
+  match e with EAssert => 1 | EExists => 2 | ENotFound => 3 | EValue => 4 | EKey => 5 | EType => 6 end.
+Definition blocks (bs : list bytes) : list Z * list (list int) := (map blen bs, map (fun b => snd (unB b)) bs).
+Definition show_res (r : res) : ptuple :=
+  match r with
+  | ROk => (0, 0, 0, [], [])
+  | RErr e => (1, err_code e, 0, [], [])
+  | RNum n => (2, n, 0, [], [])
+  | RRec t p => let '(l, w) := blocks [t; p] in (3, 0, 0, l, w)
+  | RTimes ts => let '(l, w) := blocks [ts] in (4, 0, 0, l, w)
+  | RHdr k dt nv cs => let '(l, w) := blocks cs in (5 + sid k, dt, nv, l, w)
+  end.
+Definition show_snap (s : snap) : ptuple :=
+  match s with
+  | SKeep => (0, 0, 0, [], [])
+  | SAbsent => (1, 0, 0, [], [])
+  | SFile b => let '(l, w) := blocks [b] in (2, 0, 0, l, w)
+  end.
+
 Fixpoint run (m : add_mode) (s : state) (ops : list op) : list (res * snap) :=
   match ops with
   | [] => []
@@ -317,4 +339,5 @@ Fixpoint run (m : add_mode) (s : state) (ops : list op) : list (res * snap) :=
   end.
 
 Definition init_state := mkState None [].
-Definition run0 (m : add_mode) (ops : list op) := run m init_state ops.
+Definition run0 (m : add_mode) (ops : list op) : list (ptuple * ptuple) :=
+  map (fun rs => (show_res (fst rs), show_snap (snd rs))) (run m init_state ops).
